@@ -76,6 +76,9 @@ type jobRun struct {
 }
 
 type entryMon struct {
+	abs        cron.Schedule // the schedule itself when its activation instants are absolute (a spec), else nil
+	loc        *time.Location
+	blk        bool
 	id         cron.EntryID
 	calls      []nextCall
 	runs       []*jobRun
@@ -99,7 +102,18 @@ type snapRec struct {
 
 func dur(t int) time.Duration { return time.Duration(t) * 100 * time.Millisecond }
 
-func mkExec(script []op, timeline bool) *mc.Exec {
+// cfg is how the Cron under test is built.
+type cfg struct {
+	zone  bool   // location = a fixed zone one second east of UTC (the model clock delivers UTC readings)
+	chain string // "", "delay" (DelayIfStillRunning), "skip" (SkipIfStillRunning)
+}
+
+// oddZone is one second east of UTC: a seconds field read on its wall clock is
+// off by one from the same field read in UTC, so a schedule consulted with a
+// reading in the wrong zone shows within the harness's time scale.
+var oddZone = time.FixedZone("UTC+1s", 1)
+
+func mkExec(script []op, timeline bool, cf cfg) *mc.Exec {
 	var (
 		ents         []*entryMon
 		snaps        []snapRec
@@ -115,7 +129,18 @@ func mkExec(script []op, timeline bool) *mc.Exec {
 	bad := func(f string, a ...any) { errs = append(errs, fmt.Sprintf(f, a...)) }
 	body := func() {
 		parser := cron.NewParser(cron.Second | cron.Minute | cron.Hour | cron.Dom | cron.Month | cron.Dow)
-		c := cron.New(cron.WithLocation(time.UTC), cron.WithLogger(cron.DiscardLogger), cron.WithParser(parser))
+		loc := time.UTC
+		if cf.zone {
+			loc = oddZone
+		}
+		copts := []cron.Option{cron.WithLocation(loc), cron.WithLogger(cron.DiscardLogger), cron.WithParser(parser)}
+		switch cf.chain {
+		case "delay":
+			copts = append(copts, cron.WithChain(cron.DelayIfStillRunning(cron.DiscardLogger)))
+		case "skip":
+			copts = append(copts, cron.WithChain(cron.SkipIfStillRunning(cron.DiscardLogger)))
+		}
+		c := cron.New(copts...)
 		release := mc.NewChan[struct{}]()
 		// at every quiescent instant while the scheduler is running (and no
 		// client call is in flight) no live entry may be due: an activation
@@ -128,6 +153,14 @@ func mkExec(script []op, timeline bool) *mc.Exec {
 			}
 			now := mc.ModelNow()
 			for _, em := range ents {
+				// an activation the scheduler has served means the entry's job was
+				// started: nothing but the clock can move now, so the job has begun —
+				// unless the chain holds it back behind the entry's OWN unfinished run
+				if !em.blk {
+					if acts := activations(em); len(em.runs) < len(acts) {
+						bad("[key=served-activation-job-not-started] entry %d: %d activation instants served %v but only %d job starts although nothing else can run (clock %v) and the entry's own jobs never block", em.id, len(acts), fmtActs(acts), len(em.runs), now)
+					}
+				}
 				if em.removed || len(em.calls) == 0 {
 					continue
 				}
@@ -176,6 +209,10 @@ func mkExec(script []op, timeline bool) *mc.Exec {
 						}
 						inner = s
 					}
+					if o.kind == 'X' {
+						em.abs, em.loc = inner, loc
+					}
+					em.blk = o.blk
 					ents = append(ents, em)
 					em.id = c.Schedule(logSched{inner, &em.calls}, mkJob(em, o.blk))
 				case 'R':
@@ -269,9 +306,36 @@ func mkExec(script []op, timeline bool) *mc.Exec {
 			if len(em.runs) > len(acts) {
 				return fmt.Errorf("entry %d: %d job starts for %d activation instants served %v", em.id, len(em.runs), len(acts), fmtActs(acts))
 			}
+			// one start per wake-up: where the clock moves only at quiescence a job
+			// begins at the instant it was started, so two starts of one entry at the
+			// same clock reading are two starts for one wake-up
+			// (DelayIfStillRunning legitimately runs the held-back jobs of a parking
+			// entry back to back once it is released)
+			if timeline && !(cf.chain == "delay" && em.blk) {
+				for k := 1; k < len(em.runs); k++ {
+					if em.runs[k].at <= em.runs[k-1].at {
+						return fmt.Errorf("[key=two-starts-for-one-wake-up] entry %d: starts #%d and #%d both at clock %v (activation instants served %v): skipped instants are replayed instead of served once", em.id, k-1, k, em.runs[k].at, fmtActs(acts))
+					}
+				}
+			}
 			for k, r := range em.runs {
 				if r.at < acts[k].Sub(epoch) {
 					return fmt.Errorf("entry %d: start #%d at %v is before its activation instant %v", em.id, k, r.at, acts[k].Sub(epoch))
+				}
+			}
+			// a spec's activation instants are absolute: whatever the scheduler
+			// computed, the k-th start cannot precede the k-th instant after the
+			// entry was added at which the spec matches on the Cron's wall clock
+			if em.abs != nil {
+				t := epoch.Add(em.addedAt).In(em.loc)
+				for k, r := range em.runs {
+					t = em.abs.Next(t)
+					if t.IsZero() {
+						break
+					}
+					if r.at < t.Sub(epoch) {
+						return fmt.Errorf("[key=start-before-true-activation] entry %d: start #%d at %v, but the spec's activation #%d after the entry was added (%v) on the Cron's wall clock (%s) is %v", em.id, k, r.at, k, em.addedAt, em.loc, t.Sub(epoch))
+					}
 				}
 			}
 			oc = append(oc, fmt.Sprintf("e%d:%d/%d", em.id, len(em.runs), len(acts)))
@@ -281,7 +345,14 @@ func mkExec(script []op, timeline bool) *mc.Exec {
 		if running {
 			for _, em := range ents {
 				acts := activations(em)
-				if len(em.runs) != len(acts) {
+				if cf.chain == "skip" && (em.blk || !timeline) {
+					// SkipIfStillRunning drops the activations that arrive while the
+					// entry's own previous job is still running (a job that parks; or,
+					// when the clock may move early, one that was merely preempted)
+					if len(acts) > 0 && len(em.runs) == 0 {
+						return fmt.Errorf("entry %d: %d activation instants served %v but no job started", em.id, len(acts), fmtActs(acts))
+					}
+				} else if len(em.runs) != len(acts) {
 					return fmt.Errorf("entry %d: %d activation instants served %v but %d jobs started", em.id, len(acts), fmtActs(acts), len(em.runs))
 				}
 				if em.removed || len(em.calls) == 0 {
@@ -405,8 +476,10 @@ func name(script []op) string {
 func scenarios() []hx.Scenario {
 	var out []hx.Scenario
 	seen := map[string]bool{}
+	var cf cfg
 	add := func(prefix string, script []op, o mc.Options, thoroughOnly bool) {
 		n := prefix + name(script)
+		cf := cf
 		if seen[n] {
 			return
 		}
@@ -426,7 +499,7 @@ func scenarios() []hx.Scenario {
 				class = "cron/start-after-stop"
 			}
 		}
-		out = append(out, hx.Scenario{Name: n, Class: class, Opts: o, ThoroughOnly: thoroughOnly, Mk: func() *mc.Exec { return mkExec(sc, o.ClockLast) }})
+		out = append(out, hx.Scenario{Name: n, Class: class, Opts: o, ThoroughOnly: thoroughOnly, Mk: func() *mc.Exec { return mkExec(sc, o.ClockLast, cf) }})
 	}
 	A1 := op{kind: 'A', d: 10}
 	A2 := op{kind: 'A', d: 20}
@@ -481,6 +554,26 @@ func scenarios() []hx.Scenario {
 	// the clock REACHES them; checked at every quiescent instant
 	Z15, Z20 := op{kind: 'Z', d: 15}, op{kind: 'Z', d: 20}
 	tl := mc.Options{Delay: true, MinBound: 1, Bound: 2, AutoClock: true, ClockLast: true, Horizon: 6500 * time.Millisecond, MaxSteps: 9000}
+	// a Cron whose location differs from the zone of the clock's readings (by one
+	// second, so that it shows on this time scale): specs are read on the
+	// Cron's wall clock at every wake-up
+	X3 := op{kind: 'X', spec: "*/3 * * * * *"}
+	X2b := op{kind: 'X', spec: "*/2 * * * * *", blk: true}
+	cf = cfg{zone: true}
+	for _, sc := range [][]op{{X2, S, Z25, Z25}, {S, X2, Z25, Z25, E}, {X2, X3, S, Z25, Z25, Z20}, {X2, A1, S, Z25, R1, Z25}, {X3, S, Z25, P, Z10, S, Z25, Z25}} {
+		add("zone tl ", append(append([]op(nil), sc...), G), tl, false)
+	}
+	add("zone race ", []op{X2, S, Z25, Z25, G}, mc.Options{Delay: true, MinBound: 1, Bound: 2, AutoClock: true, Horizon: 6500 * time.Millisecond, MaxSteps: 9000}, false)
+	// job wrappers: DelayIfStillRunning / SkipIfStillRunning concern an entry's
+	// OWN previous run; another entry's blocked job holds nobody else back
+	for _, ch := range []string{"delay", "skip"} {
+		cf = cfg{chain: ch}
+		for _, sc := range [][]op{{A3b, A1, S, Z25, Z10}, {A3b, X2, S, Z25, Z10}, {A1, A3b, S, Z25, Z10}, {A3b, A2, A1, S, Z25}, {X2b, A1, S, Z25, Z25}, {A1, S, Z25, Z10}} {
+			add("chain-"+ch+" tl ", append(append([]op(nil), sc...), G), tl, false)
+		}
+		add("chain-"+ch+" race ", []op{A3b, A1, S, Z25, G}, mc.Options{Delay: true, MinBound: 1, Bound: 2, AutoClock: true, Horizon: 4500 * time.Millisecond}, false)
+	}
+	cf = cfg{}
 	for _, ent := range [][]op{{A2}, {A1, A2}, {A2, X2}, {A2, A1, A3b}} {
 		for _, mid := range [][]op{{Z15, R0}, {Z15, R1}, {Z5, R0, Z10}, {Z15, E}, {Z15, A1}, {Z10, R0}, {Z25, R0}, {Z15, R0, Z5, R1}} {
 			for _, tail := range [][]op{{Z5}, {Z10, Z10}, {Z20, Z20}} {
